@@ -879,5 +879,9 @@ def _signal_only_outputs(node: GraphNode) -> set[str]:
             data.update(set(inner.outputs) - _signal_only_outputs(inner))  # type: ignore[arg-type]
         else:
             data.update(inner.data_outputs)
-    originals = [name for name in node.graph.outputs if name not in data]
+    # only what the node exposes (the graph's selection, if any): a hidden inner
+    # signal says nothing about an exposed data output renamed to its name
+    graph = node.graph
+    exposed = graph.selected if graph.selected is not None else graph.outputs
+    originals = [name for name in exposed if name not in data]
     return set(node.map_outputs_from_original(dict.fromkeys(originals)))
